@@ -168,7 +168,7 @@ func (w *FrameWriter) take(err error) []byte {
 }
 
 func (w *FrameWriter) Settings(s ...xh2.Setting) []byte { return w.take(w.fr.WriteSettings(s...)) }
-func (w *FrameWriter) SettingsAck() []byte             { return w.take(w.fr.WriteSettingsAck()) }
+func (w *FrameWriter) SettingsAck() []byte              { return w.take(w.fr.WriteSettingsAck()) }
 func (w *FrameWriter) Ping(ack bool, d [8]byte) []byte  { return w.take(w.fr.WritePing(ack, d)) }
 func (w *FrameWriter) WindowUpdate(id, n uint32) []byte { return w.take(w.fr.WriteWindowUpdate(id, n)) }
 func (w *FrameWriter) RST(id uint32, code uint32) []byte {
